@@ -115,6 +115,7 @@ func TestC04(t *testing.T) {
 	defer rec.Flush(t)
 	o := faultHistOpt()
 	kinds := append(append([]string{}, masterFaults...), clientFaults...)
+	kinds = append(kinds, "err_handshake", "err_query") // attempts that fail before the dump starts must leave the position alone
 	// thorough tier: ENUMERATE one failing attempt = (kind x every fault point x pacing) on fixed history shapes
 	if thorough() {
 		idx, n, stop := 0, 0, false
